@@ -42,7 +42,12 @@ fn run_task(seed: u64, t: usize, thr_override: Option<usize>) -> Vec<u64> {
 }
 
 pub fn run(mode: &str, tasks: usize, seed: u64) -> String {
-    let reference: Vec<Vec<u64>> = (0..tasks).map(|t| run_task(seed, t, Some(1))).collect();
+    // the same calls made alone, single-threaded. If they do not even return there (a gate constructor that panics, say),
+    // the scenario says nothing about concurrent use: it is reported as `ok .. refpanic` (the trace is still replayed)
+    let reference: Vec<Vec<u64>> = match std::panic::catch_unwind(|| (0..tasks).map(|t| run_task(seed, t, Some(1))).collect()) {
+        Ok(r) => r,
+        Err(_) => return format!("ok {tasks} refpanic"),
+    };
     let results: Vec<Vec<u64>> = match mode {
         "os" | "firstuse" => {
             let hs: Vec<_> = (0..tasks)
